@@ -22,7 +22,9 @@ def gen_module(rnd):
         return k[0]
 
     def doc(indent, n):
-        return ''.join(indent + ln[4:] + '\n' if ln else '\n' for ln in (DOC % n).split('\n')[:-1])
+        text = ''.join(indent + ln[4:] + '\n' if ln else '\n' for ln in (DOC % n).split('\n')[:-1])
+        prefix = rnd.choice(['', '', 'r', 'R', 'u'])
+        return text.replace('"""', prefix + '"""', 1)
 
     if rnd.random() < 0.5:
         out.append('"""\nmodule doc\n\n>>> m = 0\n"""\n')
@@ -109,8 +111,20 @@ def run(eng, tier, seed):
             with open(path, 'w') as f:
                 f.write(src)
             for style in ('freeform', 'auto', 'google'):
-                got = ['%s:%s' % (ex.callname, ex.num) for ex in core.parse_doctestables(path, style=style, analysis='static')]
+                exs = list(core.parse_doctestables(path, style=style, analysis='static'))
+                got = ['%s:%s' % (ex.callname, ex.num) for ex in exs]
                 n += 1
+                # C08: the line of each doctest is the line of the file that holds its first statement
+                file_lines = src.split('\n')
+                for ex in exs:
+                    first = ex.docsrc.strip().split('\n')[0].strip()
+                    if not (1 <= ex.lineno <= len(file_lines)) or file_lines[ex.lineno - 1].strip() != first:
+                        at = file_lines[ex.lineno - 1] if 1 <= ex.lineno <= len(file_lines) else '<outside the file>'
+                        cex = {'module_source': src, 'style': style,
+                               'problem': 'C08: doctest %s starts with %r but is placed on file line %d: %r' % (ex.callname, first, ex.lineno, at)}
+                        break
+                if cex is not None:
+                    break
                 want = expect if style != 'google' else []        # no google blocks in these docstrings
                 if sorted(got) != want:
                     cex = {'module_source': src, 'style': style,
